@@ -943,7 +943,7 @@ fn main() {
     init_variants(&mut run, &w);
 
     // ---- direct
-    let n_direct = run.args.count(220, 2600);
+    let n_direct = run.args.count(220, 1300);
     let mut kept: Vec<(Scen, Vec<Outcome>)> = vec![];
     for i in 0..n_direct {
         let id = format!("direct:{i}");
@@ -979,7 +979,7 @@ fn main() {
     }
 
     // ---- repo: the same kind of op lists, laid out as a DAG of real change commits
-    let n_repo = run.args.count(60, 600);
+    let n_repo = run.args.count(60, 300);
     for i in 0..n_repo {
         let id = format!("repo:{i}");
         if !run.args.wants(&id) {
